@@ -44,6 +44,8 @@ var (
 	registry = map[moss.Collection]*Sched{}
 	storeReg = map[*moss.Store]*Sched{}
 	pending  *Sched // collection being opened (hooks may fire before we know its pointer)
+	retired       = map[moss.Collection]bool{}
+	retiredStores = map[*moss.Store]bool{}
 	installed bool
 	globalSeq uint64
 	globalMu  sync.Mutex
@@ -94,10 +96,16 @@ func lookup(c moss.Collection, st *moss.Store) *Sched {
 		if s, ok := registry[c]; ok {
 			return s
 		}
+		if retired[c] {
+			return nil // a collection of an earlier session: never gate or record it in a later one
+		}
 	}
 	if st != nil {
 		if s, ok := storeReg[st]; ok {
 			return s
+		}
+		if retiredStores[st] {
+			return nil
 		}
 	}
 	return pending
@@ -124,6 +132,9 @@ func (s *Sched) Bind(c moss.Collection, st *moss.Store) {
 		storeReg[st] = s
 	}
 	s.coll, s.store = c, st
+	if pending == s {
+		pending = nil // from now on only the bound collection / store reaches this scheduler
+	}
 	regMu.Unlock()
 }
 
@@ -133,11 +144,13 @@ func (s *Sched) Unbind() {
 	for c, x := range registry {
 		if x == s {
 			delete(registry, c)
+			retired[c] = true
 		}
 	}
 	for c, x := range storeReg {
 		if x == s {
 			delete(storeReg, c)
+			retiredStores[c] = true
 		}
 	}
 	if pending == s {
@@ -159,6 +172,7 @@ func (s *Sched) record(info moss.VerifInfo) {
 
 func (s *Sched) gate(point string) {
 	s.mu.Lock()
+	parked := false
 	for {
 		if s.allOpen || s.open[point] {
 			break
@@ -167,9 +181,14 @@ func (s *Sched) gate(point string) {
 			s.permits[point]--
 			break
 		}
-		s.parked[point]++
-		s.cond.Broadcast()
+		if !parked { // announce once; re-announcing on every wake-up makes parked goroutines wake each other forever
+			parked = true
+			s.parked[point]++
+			s.cond.Broadcast()
+		}
 		s.cond.Wait()
+	}
+	if parked {
 		s.parked[point]--
 	}
 	s.mu.Unlock()
@@ -268,10 +287,14 @@ func (s *Sched) describeLocked() string {
 	s.mu.Lock()
 	defer s.mu.Unlock()
 	last := ""
-	if n := len(s.events); n > 0 {
-		last = s.events[n-1].Info.Point
+	from := len(s.events) - 14
+	if from < 0 {
+		from = 0
 	}
-	return fmt.Sprintf("parked=%v permits=%v lastEvent=%s nEvents=%d", s.parked, s.permits, last, len(s.events))
+	for _, e := range s.events[from:] {
+		last += fmt.Sprintf(" %s[%d,%d,%d]", e.Info.Point, e.Info.Top, e.Info.Mid, e.Info.Base)
+	}
+	return fmt.Sprintf("parked=%v permits=%v lastEvents=%s nEvents=%d", s.parked, s.permits, last, len(s.events))
 }
 
 // NextSeq hands out a sequence number from the same counter the hook
